@@ -35,7 +35,10 @@ bool Value::extract_values(std::vector<std::vector<uint8_t>>& values) {
     std::vector<uint8_t> vch;
     while (pc != s.end()) {
         if (!s.GetOp(pc, opcode, vch)) return false;
-        if (vch.size() == 0) return false; // we only allow push operations here
+        // values that assemble to a one-byte push opcode stand for that number
+        if (opcode >= OP_1 && opcode <= OP_16) vch = std::vector<uint8_t>(1, (uint8_t)(opcode - (OP_1 - 1)));
+        else if (opcode == OP_1NEGATE) vch = std::vector<uint8_t>(1, 0x81);
+        else if (opcode > OP_PUSHDATA4) return false; // we only allow push operations here
         values.push_back(vch);
     }
     return true;
